@@ -79,13 +79,15 @@ fn history16(re: &regress::Regex, text: &[u16], start: usize, ucs2: bool) -> Gua
         macro_rules! drive {
             ($it:expr) => {{
                 let mut it = $it;
+                let mut ended = true;
                 while let Some(m) = it.next() {
                     out.push(EMatch::from(&m));
                     if out.len() > engine::MAX_MATCHES {
+                        ended = false;
                         break;
                     }
                 }
-                for _ in 0..2 {
+                for _ in 0..(if ended { 2 } else { 0 }) {
                     if it.next().is_some() {
                         absorbing = false;
                     }
